@@ -864,6 +864,7 @@ func wfRangeReq(o *ObjectRangeRequest) bool {
 //@ func (*GoFakeS3).routeVersion
 //@ props C09 C05
 //@ requires           inv:    gInv(g) && w != nil && rqInv(r)
+//@ ensures [C05]      asked:  imp(ret0 == nil && (old(r.Method) == "GET" || old(r.Method) == "HEAD"), get_bucket == bucket && get_key == object && get_ver == versionID)
 //@ func (*GoFakeS3).routeMultipartUpload
 //@ props C09
 //@ requires           inv:    gInv(g) && w != nil && rqInv(r)
@@ -961,6 +962,12 @@ func wfRangeReq(o *ObjectRangeRequest) bool {
 //@ props C09 C04
 //@ ensures [C04]      keys:   imp(rerr == nil, 0 <= page.MaxKeys && page.MaxKeys <= MaxBucketKeys)
 //@ ensures [C04]      err:    imp(rerr != nil, errcode(rerr) == ErrInvalidArgument || errcode(rerr) == ErrInvalidToken)
+//@ ensures [C04]      v1:     imp(rerr == nil && has(query, "marker"), page.HasMarker && page.Marker == query.Get("marker"))
+//@ ensures [C04]      token:  imp(rerr == nil && !has(query, "marker") && has(query, "continuation-token"), page.HasMarker)
+//@ ensures [C04]      start:  imp(rerr == nil && !has(query, "marker") && !has(query, "continuation-token") && has(query, "start-after"),
+//@                              page.HasMarker && page.Marker == query.Get("start-after"))
+//@ ensures [C04]      none:   imp(rerr == nil && !has(query, "marker") && !has(query, "continuation-token") && !has(query, "start-after"),
+//@                              !page.HasMarker && page.Marker == "")
 //@ modifies nothing
 //@ func listBucketVersionsPageFromQuery
 //@ props C09 C13
@@ -995,6 +1002,8 @@ func wfRangeReq(o *ObjectRangeRequest) bool {
 //@ props C02 C01 C08 C09
 //@ requires           args:   db != nil && meta != nil
 //@ ensures [C08]      reject: imp(err != nil, store_gen == old(store_gen))
+//@ ensures [C02,C01]  copy:   imp(err == nil, get_count == old(get_count) + 1 && get_bucket == srcBucket && get_key == srcKey && get_ver == "" &&
+//@                              put_count == old(put_count) + 1 && put_bucket == dstBucket && put_key == dstKey && put_meta == meta)
 //@ modifies store_gen, put_count, put_bucket, put_key, put_meta, put_size, put_input, rd_pos, get_count, get_bucket, get_key, get_ver, get_obj
 
 //@ func (MFADeleteStatus).Enabled
